@@ -25,6 +25,7 @@ func genOptionList(g *gen) {
 	fmt.Fprintf(&b, "/-- message/option.go: URIPath -/\ndef uriPath : Nat := %d\n", uint64(message.URIPath))
 	fmt.Fprintf(&b, "/-- message/option.go: LocationPath -/\ndef locationPath : Nat := %d\n", uint64(message.LocationPath))
 	fmt.Fprintf(&b, "/-- message/option.go: URIQuery -/\ndef uriQuery : Nat := %d\n", uint64(message.URIQuery))
+	fmt.Fprintf(&b, "/-- message/option.go: ETag -/\ndef eTag : Nat := %d\n", uint64(message.ETag))
 	fmt.Fprintf(&b, "/-- message/option.go: Observe -/\ndef observe : Nat := %d\n", uint64(message.Observe))
 	fmt.Fprintf(&b, "/-- message/option.go: ContentFormat -/\ndef contentFormat : Nat := %d\n", uint64(message.ContentFormat))
 	fmt.Fprintf(&b, "/-- message/option.go: bit size of MediaType (math.CastTo[MediaType] in ContentFormat) -/\ndef mediaTypeBits : Nat := %d\n", reflect.TypeOf(message.MediaType(0)).Bits())
